@@ -874,6 +874,7 @@ RULE_BUILDERS = {
     'OnSubterm:ReduceLimit': lambda p: rules.OnSubterm(rules.ReduceLimit()),
     'OnSubterm:DerivativeSimplify': lambda p: rules.OnSubterm(rules.DerivativeSimplify()),
 }
+ATTR_SEEDS = [11, 12, 13, 14, 15, 16, 17, 18]
 FULLSIMP_COMPONENTS = ['Simplify', 'OnSubterm:SimplifyPower', 'OnSubterm:ReduceLimit', 'OnSubterm:Linearity',
                        'OnSubterm:DerivativeSimplify']
 
@@ -976,7 +977,7 @@ def _rule_changes_value(rname, params, t, ctx, conds):
     if not hasattr(aft, 'ty') or str(aft) == str(t):
         return False
     c = Comparator({}, conds or [], {}, int_variables([t, aft]), limit_s=2.0)
-    return c.compare(t, aft, [11, 12, 13]).verdict == 'differ'
+    return c.compare(t, aft, ATTR_SEEDS).verdict == 'differ'
 
 
 def _two_sided(t):
@@ -1017,6 +1018,21 @@ def attribute(rname, e, params, after, env_fr, ctx, conds):
                 if safe(comp, variant):
                     sub2 = minimal_failing_subterm(variant, lambda t: _rule_changes_value(comp, {}, t, ctx, conds))
                     return comp.replace('OnSubterm:', ''), head_feature(sub2)
+        # no component fails on its own: walk through the pipeline and find the first stage that changes the value
+        cur = sub
+        for comp in ['OnSubterm:Linearity', 'Simplify', 'OnSubterm:DerivativeSimplify', 'OnSubterm:SimplifyPower',
+                     'OnSubterm:ReduceLimit'] * 2:
+            try:
+                with quiet(), time_limit(10):
+                    nxt = RULE_BUILDERS[comp]({}).eval(copy.deepcopy(cur), ctx)
+            except Exception:
+                break
+            if str(nxt) != str(cur):
+                c = Comparator({}, conds or [], {}, int_variables([cur, nxt]), limit_s=2.0)
+                if c.compare(cur, nxt, ATTR_SEEDS).verdict == 'differ':
+                    sub2 = minimal_failing_subterm(cur, lambda t: _rule_changes_value(comp, {}, t, ctx, conds))
+                    return comp.replace('OnSubterm:', ''), head_feature(sub2)
+            cur = nxt
         return 'FullSimplify', head_feature(sub)
     return rname.replace('OnSubterm:', ''), feature_of(rname, e, params, after, env_fr, ctx, conds)
 
@@ -1054,13 +1070,25 @@ def feature_of(rname, e, params, after, env_fr=None, ctx=None, conds=None):
                     ends = []
                     for bnd in (new.lower, new.upper):
                         pt = ev.value_or_inf(bnd, env)
-                        ends.append(ev._at_point(ev.compile(h), dict(env), v, pt, None) if mp.isfinite(pt) else None)
+                        if mp.isfinite(pt):
+                            try:
+                                ends.append(ev._at_point(ev.compile(h), dict(env), v, pt, None))
+                            except Inconc:
+                                ends.append(None)          # a pole of h at the end point
+                        else:
+                            env2 = dict(env)
+                            env2[v] = mpf(10) ** 9 if pt > 0 else -mpf(10) ** 9
+                            big = ev.value(h, env2)
+                            ends.append(mp.inf if big > 10 ** 6 else (-mp.inf if big < -10 ** 6 else big))
                     olds = [ev.value_or_inf(old.lower, env), ev.value_or_inf(old.upper, env)]
-                    for got in (ends, ends[::-1]):
-                        if all(g is None or (mp.isfinite(o) and L.close(g, o)) for g, o in zip(got, olds)):
-                            break
-                    else:
-                        ok = False
+
+                    def agrees(g, o):
+                        if g is None:
+                            return True
+                        if mp.isinf(g) or mp.isinf(o):
+                            return g == o
+                        return L.close(g, o, mpf(10) ** (-4))
+                    ok = any(all(agrees(g, o) for g, o in zip(got, olds)) for got in (ends, ends[::-1]))
             return 'h-maps-interval-onto-interval' if ok else 'h-does-not-map-new-interval-onto-old'
         except Exception:
             return 'h-unknown'
@@ -1123,6 +1151,24 @@ def feature_of(rname, e, params, after, env_fr=None, ctx=None, conds=None):
     return 'any'
 
 
+def bound_only_vars(e):
+    bound = set()
+    for t in L.subterms(e):
+        if t.ty in (L.INTEGRAL, L.EVAL_AT, L.LIMIT, L.DERIV):
+            bound.add(str(t.var))
+        elif t.ty == L.SUMMATION:
+            bound.add(str(t.index_var))
+    return bound - L.free_vars(e)
+
+
+def admissible_conds(e, conds):
+    """Context conditions speak about parameters.  A condition on a name that only occurs bound in e is a name clash
+    that real calculations do not contain (the rules add the range of a bound variable themselves): drop it."""
+    bo = bound_only_vars(e)
+    keep = [c for c in conds if not (L.free_vars(c) & bo)]
+    return keep, [str(c) for c in keep]
+
+
 def run_rule_case(case, H, limit_s=5.0):
     try:
         rname = str(case['rule'])
@@ -1141,6 +1187,7 @@ def run_rule_case(case, H, limit_s=5.0):
     for c in conds:
         if not (c.ty == L.OP and c.op in L.REL_OPS):
             raise CaseInvalid('condition')
+    conds, cond_strs = admissible_conds(e, conds)
     try:
         rule = RULE_BUILDERS[rname](params)
     except CaseInvalid:
@@ -1301,8 +1348,9 @@ def eq_feature(e):
         if not ok and (best is None or t.size() < best.size()):
             best = t
     t = best if best is not None else e
-    inner = 'one-sided-limit' if any(x.ty == L.LIMIT and x.drt is not None for x in L.subterms(t)) else 'other'
-    return '%s-containing-%s' % ({L.INTEGRAL: 'integral', L.INDEFINITEINTEGRAL: 'indef-integral', L.SUMMATION: 'sum'}.get(t.ty, 'other'), inner)
+    if any(x.ty == L.LIMIT and x.drt is not None for x in L.subterms(t)):
+        return 'one-sided-limit-under-binder'
+    return {L.INTEGRAL: 'integral', L.INDEFINITEINTEGRAL: 'indef-integral', L.SUMMATION: 'sum'}.get(t.ty, 'other')
 
 
 def rt_feature(e, back=None):
@@ -1355,7 +1403,7 @@ def deriv_feature(e, var, ctx, conds):
         with quiet(), time_limit(10):
             d = rules.deriv(var, copy.deepcopy(t), ctx)
         c = Comparator({}, conds, {}, int_variables([t]), limit_s=2.0)
-        return c.compare(expr.Deriv(var, t), d, [11, 12, 13]).verdict == 'differ'
+        return c.compare(expr.Deriv(var, t), d, ATTR_SEEDS).verdict == 'differ'
     return head_feature(minimal_failing_subterm(e, test))
 
 
@@ -1395,6 +1443,7 @@ def run_deriv_case(case, H, limit_s=5.0):
 def run_normalize_case(case, H, limit_s=5.0):
     e = P(str(case.get('e')))
     conds = [P(str(c)) for c in case.get('conds', [])]
+    conds, _ = admissible_conds(e, conds)
     seeds = [int(s) for s in case.get('seeds', [1, 2, 3])]
     cd = conditions.Conditions(conds)
     try:
@@ -2018,12 +2067,16 @@ def run_case(case, H):
 
 def shards(tier):
     out = [{'kind': 'file', 'file': name} for name, _ in file_list()]
-    mult = 1 if tier == 'quick' else 15
+    mult = 1 if tier == 'quick' else 40
     for gname in sorted(QUICK_N):
         n = QUICK_N[gname] * mult
         k = max(1, -(-n // (40 if gname not in ('roundtrip', 'bounds') else 150))) if tier == 'quick' else 32
         for i, m in enumerate(harness.split(n, k)):
             out.append({'kind': 'gen', 'gen': gname, 'n': m, 'i': i})
+    # every identity of the base book, with a correct and (every 4th) a perturbed target
+    nparts = 4 if tier == 'quick' else 16
+    for i in range(nparts):
+        out.append({'kind': 'gen', 'gen': 'ApplyIdentityAll', 'n': 2 if tier == 'quick' else 12, 'i': i, 'parts': nparts})
     # long shards first
     out.sort(key=lambda d: (0 if d['kind'] == 'gen' else 1, json.dumps(d, sort_keys=True)))
     return out
@@ -2047,6 +2100,21 @@ def _run_shard(desc, seed, tier, H):
     kind = desc['kind']
     if kind == 'file':
         run_file_shard(desc, seed, tier, H)
+    elif kind == 'gen' and desc['gen'] == 'ApplyIdentityAll':
+        H.exploring = True
+        pool = ['x', '2 * x', 't', 'x + 1', '-x', 'x ^ 2', '1/2', '2', '-2', '3', 'x - t', 't / 2', '1/3', 'x * t', '-1', '4',
+                'sin(x)', '1 - x']
+        ids = base_identities()
+        for idx in range(len(ids)):
+            if idx % desc['parts'] != desc['i']:
+                continue
+            for j in range(desc['n']):
+                inst = {v: pool[_h('inst', seed // 1000, idx, j, v) % len(pool)]
+                        for v in ('a', 'b', 'k', 'x', 'y', 'u', 'z', 'm', 'n')}
+                case = {'kind': 'identity', 'index': idx, 'inst': inst, 'wrap': ['none', 'plus', 'int'][j % 3],
+                        'wrong': 1 if (idx + j) % 4 == 3 else 0, 'conds': [],
+                        'seeds': [_h('seed', seed // 1000, idx, j, q) % (2 ** 20) for q in range(3)]}
+                run_case(case, H)
     elif kind == 'gen':
         if 'S' not in _strategies:
             _strategies['S'] = strategies()
